@@ -6,10 +6,10 @@
 //!
 //! Program (one JSON object per line):
 //!   {"cfg": {"kind":"mem"|"disk", "policy":"lru"|"lfu"|"fifo"|"random"|"ttl",
-//!            "maxe": N, "maxb": M (0 = no byte limit), "dttl":"none"|"long"|"short",
+//!            "maxe": N, "maxb": M (0 = no byte limit), "dttl":"none"|"long"|"short"|"zero"|"ns"|"max",
 //!            "subdirs": bool, "bg": bool},
 //!    "keys": ["a","b",..],                 (universe probed by "probe"; default: keys of the ops)
-//!    "ops": [{"op":"put","k":"a","n":3}, {"op":"put_ttl","k":"a","n":1,"ttl":"short"|"long"},
+//!    "ops": [{"op":"put","k":"a","n":3}, {"op":"put_ttl","k":"a","n":1,"ttl":"short"|"long"|"zero"|"ns"|"max"},
 //!            {"op":"get","k":"a"}, {"op":"contains","k":"a"}, {"op":"remove","k":"a"},
 //!            {"op":"clear"}, {"op":"tick"}, {"op":"restart"}, {"op":"probe"}]}
 //!
@@ -21,8 +21,9 @@
 //! put/clear/tick/restart -> {"ok":true}; contains/remove -> {"b":bool}; probe -> {"vals":{key: get result}};
 //! any error -> {"err":text}; a panic -> {"outcome":"panic",..}.
 //!
-//! Time: "short" TTL = 2 ms, "tick" sleeps 10 ms (5 x TTL), "long" = 1 h.  Nothing here
-//! judges anything: T_Cache (TLC) does.
+//! Time: "short" TTL = 2 ms, "tick" sleeps 10 ms (5 x TTL), "long" = 1 h; boundary values
+//! "zero" = Duration::ZERO, "ns" = 1 ns, "max" = Duration::MAX.  Nothing here judges
+//! anything: T_Cache (TLC) does.
 use bytes::Bytes;
 use cascette_cache::config::{DiskCacheConfig, MemoryCacheConfig};
 use cascette_cache::key::RibbitKey;
@@ -61,6 +62,10 @@ fn ttl_of(class: &str) -> Duration {
     match class {
         "short" => SHORT_TTL,
         "long" => LONG_TTL,
+        // the boundary values of the TTL domain
+        "zero" => Duration::ZERO,
+        "ns" => Duration::from_nanos(1),
+        "max" => Duration::MAX,
         other => panic!("driver: unknown ttl class {other}"),
     }
 }
@@ -333,9 +338,11 @@ fn random_program(rng: &mut Rng, len: usize, kind: &str) -> Value {
         nkeys = 3 + rng.below(10);
         maxsize = 24;
     }
-    let dttl = match rng.below(10) {
-        0 => "short",
-        1..=3 => "long",
+    let dttl = match rng.below(20) {
+        0 | 1 => "short",
+        2..=6 => "long",
+        7 => "zero",
+        8 => "max",
         _ => "none",
     };
     let mut ops = vec![];
@@ -351,7 +358,10 @@ fn random_program(rng: &mut Rng, len: usize, kind: &str) -> Value {
         let op = match r {
             0..=39 => json!({"op": "put", "k": k, "n": n}),
             40..=45 => json!({"op": "put_ttl", "k": k, "n": n, "ttl": "short"}),
-            46..=50 => json!({"op": "put_ttl", "k": k, "n": n, "ttl": "long"}),
+            46..=47 => json!({"op": "put_ttl", "k": k, "n": n, "ttl": "long"}),
+            48 => json!({"op": "put_ttl", "k": k, "n": n, "ttl": "zero"}),
+            49 => json!({"op": "put_ttl", "k": k, "n": n, "ttl": "ns"}),
+            50 => json!({"op": "put_ttl", "k": k, "n": n, "ttl": "max"}),
             51..=70 => json!({"op": "get", "k": k}),
             71..=78 => json!({"op": "contains", "k": k}),
             79..=90 => json!({"op": "remove", "k": k}),
